@@ -234,7 +234,7 @@ def _k1_cases(tier):
             if len(body) == 4:
                 # flat: uniformly negated / non-negated leaves, and the ones with exactly the middle leaf negated
                 negs_ = tuple(x[0] == '!' for x in body[1:])
-                keep = negs_ in ((False, False, False), (True, True, True), (False, True, False))
+                keep = negs_ in ((False, False, False), (False, True, False))
             else:
                 inner = [x for x in body[1:] if x[0] in '&|' or (x[0] == '!' and x[1][0] in '&|')]
                 inner_body = inner[0][1] if inner[0][0] == '!' else inner[0]
@@ -243,11 +243,17 @@ def _k1_cases(tier):
                 # nested: && and || mixed, leaves uniformly negated / non-negated; the all-negated ones only with a
                 # non-negated inner operand (the whole run of all 128 kept by the earlier rule cost 27 cpu-hours on a
                 # loaded machine and found nothing the others did not)
-                keep = (inner_body[0] != body[0]) and (negs == {False} or (negs == {True} and inner[0][0] != '!' and it[0] != '!'))
+                # (round 4: the all-negated nested ones dropped as well - the thorough tier of C13 had grown to ~10 cpu-hours;
+                # negated leaves under && / || are covered by the 2-leaf obligations and the flat middle-negated ones)
+                keep = (inner_body[0] != body[0]) and negs == {False}
             if not keep:
                 continue
-            cases.append(('n', it))
-            cases.append(('!', ('n', it)))
+            # of the four placements of an outer negation, ln(E) and !ln!(E) (the latter inverts at both levels); the 2-leaf
+            # obligations have all four
+            if it[0] == '!':
+                cases.append(('!', ('n', it)))
+            else:
+                cases.append(('n', it))
         # nested line level, depth 3
         A = [('n', ('c', 0)), ('!', ('n', ('c', 0))), ('u', 0)]
         B = [('n', ('c', 1)), ('!', ('n', ('c', 1)))]
